@@ -317,8 +317,12 @@ static std::string structure_error(const Raw& r, int node)
 }
 
 // ------------------------------------------------------------------------------------------------ operations
-enum OpK { O_CONV = 1, O_CLONE, O_TRANS, O_PERM, O_LAYOUT, O_GRAPH, O_MIRROR, O_SHRINK /* relatives phase only */ };
+enum OpK { O_CONV = 1, O_CLONE, O_TRANS, O_PERM, O_LAYOUT, O_GRAPH, O_MIRROR, O_SHRINK /* relatives phase only */, O_XCLONE /* cross-type clone: a=mode, b=target node */ };
+struct Op;
 struct Op { int k = 0, a = 0, b = 0; };
+static bool is_clone(const Op& o) { return o.k == O_CLONE || o.k == O_XCLONE; }
+constexpr int c_fmt(int n) { return n <= N_CSR_F32 ? F_CSR : n <= N_BAND_F32 ? F_BAND : n <= N_CSCR_F32 ? F_CSCR : n <= N_DENSE_F32 ? F_DENSE : F_BCSR; }
+constexpr bool xclone_ok(int s, int t) { return s != t && conv_ok(s, t) && c_fmt(s) == c_fmt(t); }
 static const char* clone_name[5] = {"Shallow", "Layout", "Weak", "Deep", "Allocate"};
 
 /// all permutations of k elements for k<=3, three representatives above
@@ -346,7 +350,7 @@ static std::string op_name_build(const Op& o, int src);
 static const std::string& op_name(const Op& o, int src)
 {
   static std::map<uint32_t, std::string> cache;
-  const uint32_t k = (uint32_t(o.k) << 16) | (uint32_t(src) << 8) | uint32_t(o.k == O_PERM ? 0 : o.a);
+  const uint32_t k = (uint32_t(o.k) << 16) | (uint32_t(src) << 8) | uint32_t(o.k == O_PERM ? 0 : o.a) | (o.k == O_XCLONE ? (uint32_t(o.b) << 24) : 0u);
   auto it = cache.find(k);
   if(it == cache.end()) it = cache.emplace(k, op_name_build(o, src)).first;
   return it->second;
@@ -358,6 +362,7 @@ static std::string op_name_build(const Op& o, int src)
   {
   case O_CONV: s << "convert " << node_name[src] << "->" << node_name[o.a]; break;
   case O_CLONE: s << "clone(" << clone_name[o.a] << ") " << node_name[src]; break;
+  case O_XCLONE: s << "cross-type clone(" << clone_name[o.a] << ") " << node_name[src] << "->" << node_name[o.b]; break;
   case O_TRANS: s << "transpose" << (o.a == 0 ? "" : o.a == 1 ? "(into sized target)" : "_inplace") << " " << node_name[src]; break;
   case O_PERM: s << "permute " << node_name[src]; break;
   case O_LAYOUT: s << (o.a == 0 ? "ctor(layout) " : "operator=(layout) ") << node_name[src]; break;
@@ -377,7 +382,7 @@ static std::string op_full(const Op& o, const Model& M)
   }
   return s;
 }
-static bool is_leaf(const Op& o) { return (o.k == O_CLONE && (o.a == int(CloneMode::Layout) || o.a == int(CloneMode::Allocate))) || o.k == O_LAYOUT || o.k == O_GRAPH; }
+static bool is_leaf(const Op& o) { return (is_clone(o) && (o.a == int(CloneMode::Layout) || o.a == int(CloneMode::Allocate))) || o.k == O_LAYOUT || o.k == O_GRAPH; }
 static bool is_mutating(const Op& o) { return o.k == O_PERM || o.k == O_SHRINK || (o.k == O_TRANS && o.a == 2); }
 
 /// expected sharing between result and source: bit0 data arrays shared, bit1 index arrays shared
@@ -390,6 +395,10 @@ static int expected_sharing(const Op& o, int src)
     return (node_dt[src] == node_dt[o.a] ? 1 : 0) | (node_it[src] == node_it[o.a] ? 2 : 0);
   case O_CLONE:
     return o.a == int(CloneMode::Shallow) ? 3 : (o.a == int(CloneMode::Weak) || o.a == int(CloneMode::Layout)) ? 2 : 0;
+  case O_XCLONE:
+    // clone(t, mode) of the converted temporary t: only arrays whose element type is unchanged can come from the source
+    return (o.a == int(CloneMode::Shallow) ? 3 : (o.a == int(CloneMode::Weak) || o.a == int(CloneMode::Layout)) ? 2 : 0)
+      & ((node_dt[src] == node_dt[o.b] ? 1 : 0) | (node_it[src] == node_it[o.b] ? 2 : 0));
   case O_LAYOUT: return 2;
   default: return 0;
   }
@@ -413,6 +422,8 @@ static void ops_for(const Model& M, std::vector<Op>& out, verif::Ctx& c, bool co
     out.push_back(Op{O_CONV, t, 0});
   }
   for(int mode = 0; mode < 5; ++mode) out.push_back(Op{O_CLONE, mode, 0});
+  // cross-type clone overload (all five modes are accepted; only ranged sources are asserted, matrices never are)
+  for(int t = 0; t < N_NODES; ++t) if(xclone_ok(s, t)) for(int mode = 0; mode < 5; ++mode) out.push_back(Op{O_XCLONE, mode, t});
   if(transpose_target(s) >= 0)
   {
     out.push_back(Op{O_TRANS, 0, 0});
@@ -455,6 +466,7 @@ static void model_step(Model& M, const Op& o)
     for(size_t k = 0; k < M.S.size(); ++k) if(M.S[k] && std::fabs(M.D[k]) < 1.0) { M.S[k] = 0; M.D[k] = 0.0; }
     break;
   case O_CLONE: case O_LAYOUT: break;
+  case O_XCLONE: M.node = o.b; break;
   case O_GRAPH: for(auto& v : M.D) v = 0.0; break;
   case O_TRANS:
   {
@@ -517,6 +529,13 @@ static ObjP apply_op(const Op& o, ObjP& X, const Model& M, ObjP* target = nullpt
       Y = std::move(y);
       break;
     }
+    case O_XCLONE:
+      for_each_node([&](auto NT)
+      {
+        constexpr int nt = decltype(NT)::value;
+        if constexpr(xclone_ok(ns, nt)) { if(o.b == nt) { auto y = take_target<nt>(target); y->mat.clone(x.mat, CloneMode(o.a)); Y = std::move(y); } }
+      });
+      break;
     case O_TRANS:
       if constexpr(transpose_target(ns) >= 0)
       {
@@ -876,6 +895,20 @@ struct Search
     }
     if(rx2.ix != rx.ix || rx2.si != rx.si) { fail_once(opn + ": source layout changed by a write through the result", ""); ok = false; }
     if(values_defined) scale_values(Y, 0.5);
+    {
+      // the other direction: write through the source, observe the result
+      const Raw ry1 = raw_of(Y);
+      scale_values(X, 2.0);
+      const Raw ry2 = raw_of(Y);
+      bool ychanged = false;
+      for(size_t k = 0; k < ry1.el.size() && k < ry2.el.size(); ++k)
+        if(!ry1.el[k].empty() && memcmp(ry1.el[k].data(), ry2.el[k].data(), ry1.el[k].size() * sizeof(double)) != 0) ychanged = true;
+      const bool has_data = !rx.el.empty() && !rx.el[0].empty();
+      if((exp & 1) && has_data && nonzero && !ychanged) { fail_once(opn + ": write through the source is not visible in the result (should alias)", ""); ok = false; }
+      if(!(exp & 1) && ychanged) { fail_once(opn + ": write through the source changed the result (should be value-independent)", ""); ok = false; }
+      if(ry2.ix != ry1.ix || ry2.si != ry1.si) { fail_once(opn + ": result layout changed by a write through the source", ""); ok = false; }
+      scale_values(X, 0.5);
+    }
     c.count("aliasing_probes");
     return ok;
   }
@@ -979,12 +1012,12 @@ struct Search
     ops_for(M, ops, c, false);
     for(const Op& o : ops)
     {
-      if(!(o.k == O_CONV || o.k == O_CLONE || (o.k == O_LAYOUT && o.a == 1) || o.k == O_GRAPH || o.k == O_MIRROR || (o.k == O_TRANS && o.a == 0))) continue;
+      if(!(o.k == O_CONV || is_clone(o) || (o.k == O_LAYOUT && o.a == 1) || o.k == O_GRAPH || o.k == O_MIRROR || (o.k == O_TRANS && o.a == 0))) continue;
       Model M2 = M; model_step(M2, o);
       const int nt = M2.node;
       const std::string& opn = op_name(o, ns);
-      const bool defined = !(o.k == O_LAYOUT || (o.k == O_CLONE && (o.a == int(CloneMode::Layout) || o.a == int(CloneMode::Allocate))));
-      const bool idx_defined = !(o.k == O_CLONE && o.a == int(CloneMode::Allocate));
+      const bool defined = !(o.k == O_LAYOUT || (is_clone(o) && (o.a == int(CloneMode::Layout) || o.a == int(CloneMode::Allocate))));
+      const bool idx_defined = !(is_clone(o) && o.a == int(CloneMode::Allocate));
       static const int var_trans[7][2] = {{0, R_WEAK}, {1, R_WEAK}, {0, R_LAYOUT}, {1, R_LAYOUT}, {1, R_CTOR_LAYOUT}, {2, R_WEAK}, {2, R_LAYOUT}};
       static const int var_other[3][2] = {{1, R_WEAK}, {0, R_LAYOUT}, {2, R_WEAK}};
       const int nvar = (o.k == O_TRANS) ? 7 : 3;
@@ -1018,6 +1051,62 @@ struct Search
         if(okey(*X) != kx) fail_once(opn + how + ": source matrix modified", "source now " + lay_str(actual(raw_of(*X), ns)));
       }
     }
+  }
+
+  /// Leaf check for the formats whose typed nodes differ in DT and IT at once: cross-type clone into the same format
+  /// with only the index type changed (data arrays keep their type, so a wrong shortcut would alias them).
+  void xclone_it_leaves(Obj& X, const Raw& rx, const Model& M, const std::string& kx)
+  {
+    if(M.fmt() == F_CSR) return;
+    visit(X, [&](auto& x, auto NS)
+    {
+      constexpr int ns = decltype(NS)::value;
+      typedef typename NodeT<ns>::type MS; typedef typename MS::DataType DT; typedef typename MS::IndexType IT;
+      typedef typename std::conditional<std::is_same<IT, u64>::value, u32, u64>::type IT2;
+      if constexpr(NodeT<ns>::fmt != F_CSR)
+      {
+        typedef typename MS::template ContainerType<DT, IT2> MT2;
+        for(int mode = 0; mode < 5; ++mode)
+        {
+          const std::string opn = std::string("cross-index-type clone(") + clone_name[mode] + ") " + node_name[ns];
+          MT2 y;
+          y.clone(x.mat, CloneMode(mode));
+          c.count("transitions"); c.count("cross_index_type_clone_leaves");
+          const Raw ry = get_raw(y);
+          const bool copies = mode == int(CloneMode::Deep) || mode == int(CloneMode::Weak) || mode == int(CloneMode::Shallow);
+          bool same = ry.si == rx.si && ry.el.size() == rx.el.size() && ry.ix.size() == rx.ix.size() && ry.sizes_ok;
+          for(size_t k = 0; same && k < rx.el.size(); ++k) same = ry.el[k].size() == rx.el[k].size() && (!copies || ry.el[k] == rx.el[k]);
+          for(size_t k = 0; same && k < rx.ix.size(); ++k) same = ry.ix[k].size() == rx.ix[k].size() && (mode == int(CloneMode::Allocate) || ry.ix[k] == rx.ix[k]);
+          if(!same) { fail_once(opn + ": clone differs from its source", ""); continue; }
+          const bool alias = mode == int(CloneMode::Shallow);
+          bool shared = false, ishared = false;
+          for(size_t k = 0; k < rx.ep.size(); ++k) if(rx.ep[k] && ry.ep[k] == rx.ep[k]) shared = true;
+          for(size_t k = 0; k < rx.ip.size(); ++k) for(auto q : ry.ip) if(rx.ip[k] && q == rx.ip[k]) ishared = true;
+          const bool has_data = !rx.el.empty() && !rx.el[0].empty();
+          if(has_data && shared != alias) fail_once(opn + (alias ? ": data array not shared with the source" : ": data array unexpectedly shared with the source"), "");
+          if(ishared) fail_once(opn + ": index arrays of different type shared with the source", "");
+          bool nonzero = false; for(auto& a : rx.el) for(double v : a) if(v != 0.0) nonzero = true;
+          if(has_data && nonzero)
+          {
+            auto scale_y = [&](double f) { for(size_t k = 0; k < y._elements.size(); ++k) for(Index i = 0; i < y._elements_size[k]; ++i) y._elements[k][i] = DT(double(y._elements[k][i]) * f); };
+            if(copies)
+            {
+              scale_y(2.0);
+              const bool xch = okey(X) != kx;
+              scale_y(0.5);
+              if(xch != alias) fail_once(opn + (alias ? ": write through the clone is not visible in the source (should alias)" : ": write through the clone changed the source (should be value-independent)"), "");
+            }
+            scale_values(X, 2.0);
+            const Raw ry2 = get_raw(y);
+            scale_values(X, 0.5);
+            bool ych = false;
+            for(size_t k = 0; k < ry.el.size(); ++k) if(!ry.el[k].empty() && memcmp(ry.el[k].data(), ry2.el[k].data(), ry.el[k].size() * sizeof(double)) != 0) ych = true;
+            if(ych != alias) fail_once(opn + (alias ? ": write through the source is not visible in the clone (should alias)" : ": write through the source changed the clone (should be value-independent)"), "");
+          }
+          if(okey(X) != kx) fail_once(opn + ": source matrix modified", "");
+        }
+      }
+    });
   }
 
   ObjP replay(const std::vector<Op>& h, Model& M)
@@ -1064,8 +1153,8 @@ struct Search
           Model M2 = M; model_step(M2, o);
           const bool mut = is_mutating(o);
           const bool leaf = is_leaf(o);
-          const bool defined = !(o.k == O_LAYOUT || (o.k == O_CLONE && (o.a == int(CloneMode::Layout) || o.a == int(CloneMode::Allocate))));
-          const bool idx_defined = !(o.k == O_CLONE && o.a == int(CloneMode::Allocate));
+          const bool defined = !(o.k == O_LAYOUT || (is_clone(o) && (o.a == int(CloneMode::Layout) || o.a == int(CloneMode::Allocate))));
+          const bool idx_defined = !(is_clone(o) && o.a == int(CloneMode::Allocate));
           // generic convert(MT_) between CSR and CSCR with an empty row: reads beyond the initialised part of its
           // temporary row pointer on the pinned tree (undefined behaviour, differs from process to process), so the
           // transition is executed and checked in a child only and not expanded; the same CSCR states are reached
@@ -1152,7 +1241,7 @@ struct Search
             c.maxi("depth", uint64_t(depth + 1));
             continue;
           }
-          if(leaf) { c.outcome(std::string("leaf:") + (o.k == O_CLONE ? "clone" : o.k == O_LAYOUT ? "layout" : "graph")); continue; }
+          if(leaf) { c.outcome(std::string("leaf:") + (is_clone(o) ? "clone" : o.k == O_LAYOUT ? "layout" : "graph")); continue; }
           const std::string ky = key_of(actual(ry, Y->node), Y->node);
           if(seen.insert(ky).second)
           {
@@ -1163,6 +1252,8 @@ struct Search
           }
           else c.count("transitions_to_known_state");
         }
+        lazy_hist = &fr.hist; lazy_op = nullptr; lazy_model = nullptr;
+        xclone_it_leaves(*X, rx, M, kx);
         relatives_phase(fr.hist, M, kx);
         {
           // the phase must leave the state itself untouched
